@@ -490,6 +490,12 @@ func (c *candidateBase) TypePreference() uint16 {
 			tcpPriorityOffset = c.agent().tcpPriorityOffset
 		}
 
+		// Saturate: an offset larger than the type preference must not wrap
+		// around uint16 (the type preference has to stay within 0..126).
+		if tcpPriorityOffset > pref {
+			return 0
+		}
+
 		pref -= tcpPriorityOffset
 	}
 
